@@ -732,3 +732,50 @@ func (cx *callCtx) setToSlice(mt *types.Map, m Term) Term {
 	cx.st.heap[c] = nw
 	return res
 }
+
+// github.com/patrickmn/go-cache: modelled as two ghost components keyed by the cache object:
+// which keys were stored (and not deleted) and what they hold. Entries may expire at any time,
+// so Get may miss a stored key, but a hit always returns the stored value.
+const goCacheHas, goCacheVal = "$gocache.has", "$gocache.val"
+
+func (e *Engine) goCacheComps() (string, string) {
+	e.vc.assumes["go-cache: a Get hit returns the value of the latest Set for that key; entries change only through the Get/Set/Delete calls of the verified functions or expire"] = true
+	return e.comp(goCacheHas, "(Array Loc (Array Str Bool))"), e.comp(goCacheVal, "(Array Loc (Array Str Iface))")
+}
+
+func init() {
+	const gc = "github.com/patrickmn/go-cache.(*cache)."
+	stubs[gc+"Get"] = func(cx *callCtx) []Term {
+		e := cx.fr.eng
+		vc := e.vc
+		h, v := e.goCacheComps()
+		ok := vc.fresh("cache.hit", "Bool")
+		vc.assumeIf(cx.st.pc, fmt.Sprintf("(=> %s (select (select %s %s) %s))", ok, e.get(cx.st, h), cx.args[0], cx.args[1]))
+		val := vc.name("cache.val", "Iface", fmt.Sprintf("(ite %s (select (select %s %s) %s) nil_iface)", ok, e.get(cx.st, v), cx.args[0], cx.args[1]))
+		return []Term{val, ok}
+	}
+	set := func(cx *callCtx) []Term {
+		e := cx.fr.eng
+		h, v := e.goCacheComps()
+		hh, vv := e.get(cx.st, h), e.get(cx.st, v)
+		cx.st.heap[h] = fmt.Sprintf("(store %s %s (store (select %s %s) %s true))", hh, cx.args[0], hh, cx.args[0], cx.args[1])
+		cx.st.heap[v] = fmt.Sprintf("(store %s %s (store (select %s %s) %s %s))", vv, cx.args[0], vv, cx.args[0], cx.args[1], cx.args[2])
+		return nil
+	}
+	stubs[gc+"SetDefault"] = set
+	stubs[gc+"Set"] = set
+	stubs[gc+"Delete"] = func(cx *callCtx) []Term {
+		e := cx.fr.eng
+		h, _ := e.goCacheComps()
+		hh := e.get(cx.st, h)
+		cx.st.heap[h] = fmt.Sprintf("(store %s %s (store (select %s %s) %s false))", hh, cx.args[0], hh, cx.args[0], cx.args[1])
+		return nil
+	}
+	stubs[gc+"Flush"] = func(cx *callCtx) []Term {
+		e := cx.fr.eng
+		h, _ := e.goCacheComps()
+		hh := e.get(cx.st, h)
+		cx.st.heap[h] = fmt.Sprintf("(store %s %s ((as const (Array Str Bool)) false))", hh, cx.args[0])
+		return nil
+	}
+}
